@@ -2095,7 +2095,7 @@ class EntityInst(Instance):
             for ref in actual._ref_spec:
                 if isinstance(ref, Offset):
                     if issubclass(actual_type, Array):
-                        actual_type = actual_type.elemtype()
+                        actual_type = actual_type._elemtype_
                     else:
                         actual_type = Bit
 
